@@ -228,6 +228,48 @@ def ob_freq(sel):
     return verify(body, check_side=False, timeout_ms=60000)
 
 
+@obligation("freq/mimo_per_block_dft", params=[{"ants": a, "switched": sw, "sel": sl} for a in ("1x2", "2x1") for sw in (False, True)
+                                               for sl in ("all", "array")], timeout=200,
+            desc="MIMO corrupt_data_in_freq_domain (fft 4, symbolic signals and tap samples, both link directions, all carriers or an index "
+                 "array): out[o, block] == sum_i DFT_4(dense response of the block for the antenna pair)[selection] * x[i, block]; one row "
+                 "per output antenna")
+def ob_freq_mimo(ants, switched, sel):
+    def body(c, it):
+        from pyphysim.channels import fading
+        prof = _profile([0, 2])
+        gen = SymFading(c)
+        ch = it.call(fading.TdlChannel, [gen, prof])
+        Nr, Nt = (1, 2) if ants == "1x2" else (2, 1)
+        it.call(it.getattr(ch, "set_num_antennas"), [Nr, Nt])
+        it.setattr(ch, "switched_direction", switched)
+        fft = 4
+        selection = None if sel == "all" else np.array([3, 0, 1])
+        idx = list(range(fft)) if selection is None else list(selection)
+        B, nblocks = len(idx), 2
+        nin, nout = (Nr, Nt) if switched else (Nt, Nr)
+        x = _sig(c, "x", nin, B * nblocks)
+        out = it.call(it.getattr(ch, "corrupt_data_in_freq_domain"), [x, fft, selection])
+        ir = it.call(it.getattr(ch, "get_last_impulse_response"), [])
+        taps = it.getattr(ir, "tap_values_sparse")
+        goals = [Goal("output shape (outputs, symbols)", np.shape(out) == (nout, B * nblocks)),
+                 Goal("reported response (taps, Nr, Nt, blocks)", np.shape(taps) == (2, Nr, Nt, nblocks))]
+        if not all(g.cond for g in goals):
+            return goals
+        F = _dft_matrix(fft, False)
+        for b in range(nblocks):
+            for o in range(nout):
+                spec = np.zeros(B, dtype=object)
+                for i_ in range(nin):
+                    dense = np.zeros(fft, dtype=object)
+                    pair = (i_, o) if switched else (o, i_)
+                    dense[0], dense[2] = taps[0, pair[0], pair[1], b], taps[1, pair[0], pair[1], b]
+                    Hf = np.dot(F, dense)
+                    spec = spec + np.array([Hf[k] * x[i_, b * B + j] for j, k in enumerate(idx)], dtype=object)
+                goals.append(Goal("block %d, output antenna %d" % (b, o), _meq(out[o, b * B:(b + 1) * B], spec)))
+        return goals
+    return verify(body, check_side=False, timeout_ms=60000)
+
+
 @obligation("su/pathloss_scales_output_and_reported_response", params=[{"domain": d} for d in ("time", "freq")], timeout=200,
             desc="SuChannel with a symbolic path loss p in [0,1] (p == 0 and p == 1 included): output == sqrt(p) * convolution/DFT product of "
                  "the UNSCALED taps and the reported response == sqrt(p) * unscaled taps (same factor at both sites); without path loss "
